@@ -1027,6 +1027,9 @@ func RPCSectorRoots(ctx context.Context, t TransportClient, cs consensus.State, 
 	var resp rhp4.RPCSectorRootsResponse
 	if err := callSingleRoundtripRPC(ctx, t, rhp4.RPCSectorRootsID, &req, &resp); err != nil {
 		return RPCSectorRootsResult{}, err
+	} else if uint64(len(resp.Roots)) != length {
+		// VerifySectorRootsProof panics if the number of roots does not match the range
+		return RPCSectorRootsResult{}, clientErrf("expected %d roots, host sent %d", length, len(resp.Roots))
 	} else if !rhp4.VerifySectorRootsProof(resp.Proof, resp.Roots, numSectors, offset, offset+length, contract.Revision.FileMerkleRoot) {
 		return RPCSectorRootsResult{}, clientErr("failed to verify sector roots proof", ErrInvalidProof)
 	}
